@@ -10,5 +10,6 @@ def main():
     if not ok:
         print("SETUP: coq build failed"); return 1
     vlib.build_harness()
+    vlib.build_proxy_harness()
     print("SETUP: ok")
     return 0
